@@ -166,6 +166,7 @@ pub fn phase(sim: &mut Sim, rng: &mut Rng, rep: &mut Report) -> Result<(), Strin
 	if fee_market {
 		sim.w.miner_delay_max = sim.w.miner_delay_max.min(3);
 		sim.w.miner_min_feerate = sim.w.fee_now;
+		sim.w.chain.replace_by_fee = true;
 		sim.w.fee_market_used = true;
 		rep.count("onchain_runs_with_fee_sensitive_miner");
 	}
@@ -202,6 +203,7 @@ pub fn phase(sim: &mut Sim, rng: &mut Rng, rep: &mut Report) -> Result<(), Strin
 		sim.w.note(format!("ONCHAIN node{} cheats: its revoked commitment {} (captured at step {}) is broadcast", c.node, c.txid, c.step));
 		sim.w.chans[ci].fault = Some("revoked commitment broadcast".into());
 		sim.w.miner_exempt.insert(c.txid);
+		sim.w.chain.replace_exempt.insert(c.txid);
 		let v = sim.w.chain.relay(&c.txs[0]);
 		sim.w.obs.push_back(Obs::Relay { step: sim.w.step, node: usize::MAX, tx: c.txs[0].clone(), verdict: v.clone() });
 		if !matches!(v, crate::chain::TxVerdict::Valid) {
@@ -405,6 +407,7 @@ pub fn phase(sim: &mut Sim, rng: &mut Rng, rep: &mut Report) -> Result<(), Strin
 				if matches!(v, crate::chain::TxVerdict::Valid | crate::chain::TxVerdict::ValidChild) {
 					if rng.chance(2, 3) {
 						sim.w.miner_exempt.insert(t.compute_txid());
+						sim.w.chain.replace_exempt.insert(t.compute_txid());
 						sim.w.chain.relay(&t);
 						attacker_live.push(t.clone());
 						sim.w.note(format!("ONCHAIN cheater broadcasts its HTLC transaction {}", t.compute_txid()));
@@ -460,6 +463,7 @@ pub fn phase(sim: &mut Sim, rng: &mut Rng, rep: &mut Report) -> Result<(), Strin
 	}
 	rep.add("onchain_blocks_mined", (sim.w.chain.height() - start) as u64);
 	sim.w.miner_min_feerate = 0;
+	sim.w.chain.replace_by_fee = false;
 	// --- 4. sweep every spendable output to the owner's wallet script ---
 	let secp = Secp256k1::new();
 	for k in 0..n {
